@@ -52,6 +52,10 @@ def run(ck, rng):
                 fl = rng.choice("01")
                 cases.append("%sfout - %d %s %s" % (pre, b, fl, tail))
                 meta.append(("writer", b, len(doc), total, doc, mode, massive, out0))
+            # transient failure: exactly the k-th Write call is rejected, later ones succeed
+            for kth in range(0, 14) if ck.tier == "thorough" else rng.sample(range(0, 14), 5):
+                cases.append("%sfout - %d 2 %s" % (pre, kth, tail))
+                meta.append(("writer_kth", kth, len(doc), total, doc, mode, massive, out0))
     # From-Root with a budgeted writer
     for items, doc, mok in docs:
         r0 = merged_items(items)[0]
@@ -64,12 +68,16 @@ def run(ck, rng):
             for b in sorted(set(rng.sample(range(total + 1), min(6, total + 1)) + [0, max(0, total - 1), total])):
                 cases.append("%sfrout %d %s %s %s %s" % ("m" if massive else "", b, rng.choice("01"), mode, bf_args(bf), items_arg(r0)))
                 meta.append(("root_writer", b, 0, total, doc, mode + " r", massive, out.split(" ")[1]))
+            for kth in rng.sample(range(0, 10), 3):
+                cases.append("%sfrout %d 2 %s %s %s" % ("m" if massive else "", kth, mode, bf_args(bf), items_arg(r0)))
+                meta.append(("root_writer_kth", kth, 0, total, doc, mode + " r", massive, out.split(" ")[1]))
     impl, _ = run_impl(exe, cases)
     model = run_model([c[1:] if c.startswith("m") else c for c in cases])
     verdicts = {}
     broken = None
     for i, (kind, k, dl, total, doc, mode, massive, out0) in enumerate(meta):
-        r, acc = impl[i].split(" ")
+        fields = impl[i].split(" ")
+        r, acc = fields[0], fields[1]
         nontriv = (kind == "reader" and k < dl) or (kind != "reader" and k < total)
         ck.case(cases[i][:400], nontriv)
         ck.count(kind + (":massive" if massive else ""))
@@ -87,6 +95,11 @@ def run(ck, rng):
                         nlines = trunc.count(b"\n")
                         if int(v.split(" ")[1]) == nlines:
                             rep["finding"] = "reader_midline_masked"
+        elif kind.endswith("_kth"):
+            if len(fields) > 2 and fields[2] == "1" and r == "ok":
+                bad = "nil returned although the writer rejected write call number %d" % k
+            if len(fields) > 2:
+                impl[i] = fields[0] + " " + fields[1]
         else:
             if r == "ok" and k < total:
                 bad = "nil returned although the writer accepted only %d of %d bytes" % (len(unhx(acc)), total)
